@@ -167,7 +167,7 @@ def rewrite_rename(src: str) -> str:
 
 
 REWRITES = {'unparse': rewrite_unparse, 'noise': rewrite_noise, 'rename': rewrite_rename}
-GATING = {'unparse', 'noise'}   # under 'rename' a rule may become UNRESOLVED (vocabulary guard) but a HOLDS -> VIOLATED change is a broken checker
+GATING = {'unparse', 'noise', 'rename'}   # pure alpha-renaming is undone by ofverif.vocab; no verdict may change
 
 
 def _run_rewrite(args):
